@@ -792,8 +792,13 @@ class Monitor:
 						break
 				else:
 					if e.suppress != "yes" and e.invalid != "must" and _usbits(e.b.bits) == bytes(usbits):
-						cand = e
-						break
+						# several identical bursts in one slot (e.g. dummy bursts): prefer the one
+						# whose sender-side values explain the datagram
+						if cand is None:
+							cand = e
+						if R.fake_rssi or d["rssi"] == e.S.nominal - e.S.att - e.b.pwr - 110:
+							cand = e
+							break
 			if cand is None:
 				self._unmatched_obs(R, d, nope, usbits, exps, fn, emitted)
 				continue
